@@ -24,6 +24,15 @@ suspended.  The same ops go through `Driver/C11.lean` (`Model/PeerConnect.lean`)
 full availability x preference table.  The connect-back half of the property runs the `back` scenarios of K_C10
 and checks the answer the asking peer / the server got.
 
+The far end (`_far_end`): "initialised, usable" is judged where the peer sits.  Whatever the library writes on a
+connection is decoded the way a peer that follows the protocol decodes it (docs/source/SOULSEEK.rst, "Obfuscation": on an
+obfuscated port the peer-init messages are obfuscated; afterwards only a `P` connection stays obfuscated, `D` and `F` go on
+in clear) — for the port that was really dialled / the listening port the peer really came in on (`pierce` on the clear
+port, `pierce obfs` on the obfuscated one).  `probe`: the caller uses the connection it was given — the peer sends one
+message (`P`: PeerUserInfoRequest, `D`: DistributedBranchLevel, `F`: a transfer ticket read with
+`receive_transfer_ticket`) and is sent one, each encoded / decoded by the protocol's rule.  The `wireback` family does the
+same for a connect-back (`ConnectToPeer` from the server → PeerPierceFirewall at the asking peer).
+
 case = {'kind', 'mode', 'lookup', 'srvFail', 'typ', 'prefer', 'ports': [clear, obfs], 'hold': [label...]?,
         'ops': [[name, arg?]...]}
 """
@@ -37,7 +46,7 @@ from typing import Any, Optional
 from vlib import common, simloop
 from vlib.common import KResult, Violation, Disagreement, Property
 from vlib.connharness import (GatedNet, SiteAudit, make_settings, start_network, fire_timer, fire_wait_timeout,
-                              SERVER_ADDR, CLEAR_PORT)
+                              SERVER_ADDR, CLEAR_PORT, OBFS_PORT)
 from vlib.simloop import settle
 from props import c10 as _c10
 
@@ -51,6 +60,154 @@ def _expected_port(prefer: bool, clear: int, obfs: int):
     if clear and obfs:
         return (obfs, True) if prefer else (clear, False)
     return (clear, False) if clear else (obfs, True)
+
+# --------------------------------------------------------------------------------------------
+# the far end
+# --------------------------------------------------------------------------------------------
+
+def _split_frame(buf: bytes, obf: bool):
+    """The first frame of `buf` as a reader that expects obfuscated / plain framing sees it: (the frame de-obfuscated, incl.
+    its length prefix; the rest) — (None, buf) when there is no complete frame under that reading."""
+    from aioslsk.protocol import obfuscation
+    hs = 8 if obf else 4
+    if len(buf) < hs:
+        return None, buf
+    hdr = obfuscation.decode(buf[:8]) if obf else buf[:4]
+    n = int.from_bytes(hdr[:4], 'little')
+    if len(buf) < hs + n:
+        return None, buf
+    frame = buf[:hs + n]
+    return (obfuscation.decode(frame) if obf else frame), buf[hs + n:]
+
+
+def _far_end(raw: bytes, port_obf: bool, typ_hint: str) -> dict:
+    """What a peer that follows the protocol makes of everything we have written on one connection.
+
+    The protocol (docs/source/SOULSEEK.rst, "Obfuscation"): on a connection made to an obfuscated port the peer
+    initialisation message (PeerInit / PeerPierceFirewall) is obfuscated, on a clear port it is not; after it a `P`
+    connection goes on as it started, `D` and `F` connections go on in clear; an `F` connection carries raw bytes.
+    The type is the one PeerInit announces (`typ_hint` for PeerPierceFirewall: the asking peer knows what it asked for).
+
+    -> {'init': the initialisation message the peer read (None: nothing readable), 'later': the messages after it (None
+        for an unreadable one), 'tail': raw bytes after it (F), 'enc': how the first frame is in fact encoded — c | o | ? |
+        - (nothing written) —, 'first': that frame decoded in its own encoding}"""
+    from aioslsk.protocol.messages import PeerInitializationMessage, PeerInit, PeerMessage, DistributedMessage
+    out = {'init': None, 'later': [], 'tail': b'', 'enc': '-', 'first': None}
+    if not raw:
+        return out
+    out['enc'] = '?'
+    for enc, o in (('c', False), ('o', True)):
+        fr, _ = _split_frame(raw, o)
+        if fr is None:
+            continue
+        try:
+            out['first'] = PeerInitializationMessage.deserialize_request(fr)
+            out['enc'] = enc
+            break
+        except Exception:
+            pass
+    fr, rest = _split_frame(raw, port_obf)
+    if fr is None:
+        return out
+    try:
+        m = PeerInitializationMessage.deserialize_request(fr)
+    except Exception:
+        return out
+    out['init'] = m
+    typ = m.typ if isinstance(m, PeerInit.Request) else typ_hint
+    if typ == 'F':
+        out['tail'] = rest
+        return out
+    later_obf = port_obf and typ == 'P'
+    cls = PeerMessage if typ == 'P' else DistributedMessage
+    guard = 0
+    while rest and guard < 64:
+        guard += 1
+        fr, rest2 = _split_frame(rest, later_obf)
+        if fr is None:
+            out['later'].append(None)
+            break
+        try:
+            out['later'].append(cls.deserialize_request(fr))
+        except Exception:
+            out['later'].append(None)
+        rest = rest2
+    return out
+
+
+class _PeerTraffic:
+    """messages the library has received on peer connections (what its reader tasks hand to the application)"""
+
+    def __init__(self, bus):
+        from aioslsk.events import MessageReceivedEvent
+        self.got: list = []
+        self._l = self.on_message          # the bus holds listeners weakly
+        bus.register(MessageReceivedEvent, self._l)
+
+    def on_message(self, ev):
+        from aioslsk.network.connection import PeerConnection
+        if isinstance(ev.connection, PeerConnection):
+            self.got.append((ev.connection, ev.message))
+
+
+async def _probe(conn, typ: str, port_obf: bool, known: bool, rem_writer, lib_writer, traffic, val: int):
+    """The caller uses the connection: the far end sends one message and is sent one, each by the protocol's rule for a
+    connection of this type on a port with this obfuscation.  -> (rx, tx): our side received the peer's message / the
+    peer can read ours.  `known`: the peer has read the initialisation message (else it has no connection with us)."""
+    from aioslsk.protocol import obfuscation
+    from aioslsk.protocol.primitives import uint32
+    from aioslsk.protocol.messages import PeerUserInfoRequest, DistributedBranchLevel, PeerMessage, DistributedMessage
+    later_obf = port_obf and typ == 'P'
+    rx = tx = 0
+    # the peer -> us
+    if known:
+        if typ == 'F':
+            t = asyncio.ensure_future(conn.receive_transfer_ticket())
+            await settle()
+            try:
+                rem_writer.write(uint32(val).serialize())
+            except ConnectionError:
+                pass
+            await settle()
+            rx = int(t.done() and not t.cancelled() and t.exception() is None and t.result() == val)
+            if not t.done():
+                t.cancel()
+                await settle()
+        else:
+            m = PeerUserInfoRequest.Request() if typ == 'P' else DistributedBranchLevel.Request(val)
+            data = m.serialize()
+            n0 = len(traffic.got)
+            try:
+                rem_writer.write(obfuscation.encode(data) if later_obf else data)
+            except ConnectionError:
+                pass
+            await settle()
+            rx = int(any(c is conn and mm == m for c, mm in traffic.got[n0:]))
+    # us -> the peer
+    if typ == 'F':
+        out_msg = uint32(val + 1).serialize()
+    else:
+        out_msg = PeerUserInfoRequest.Request() if typ == 'P' else DistributedBranchLevel.Request(val + 1)
+    n_sent = len(lib_writer.sent)
+    t = asyncio.ensure_future(conn.send_message(out_msg))
+    await settle()
+    if not t.done():
+        t.cancel()
+        await settle()
+    elif not t.cancelled():
+        t.exception()
+    new = bytes(lib_writer.sent[n_sent:])
+    if known and new:
+        if typ == 'F':
+            tx = int(new == out_msg)
+        else:
+            fr, rest = _split_frame(new, later_obf)
+            if fr is not None and not rest:
+                try:
+                    tx = int((PeerMessage if typ == 'P' else DistributedMessage).deserialize_request(fr) == out_msg)
+                except Exception:
+                    tx = 0
+    return rx, tx
 
 
 class _ListenerGate:
@@ -172,13 +329,15 @@ def _run_impl(case: dict) -> dict:
                                       for x in net._expected_response_futures))}
             gate = _ListenerGate(bus, loop, fn.accept_tasks, probe)
             gate.armed |= set(case.get('hold', []))
+            traffic = _PeerTraffic(bus)
+            in_obf: dict = {}            # remote address of an incoming connection -> it came in on the obfuscated port
+            probes: list = []            # [rx, tx] per probe
             cancel_called = [False]
             msg_held: dict = {}          # 'm:<Message>' -> the op whose message the parked listener is holding up
             srv_w = fn.lib_writers[SERVER_ADDR]
             port, obf = _expected_port(prefer, clear, obfs)
             dkey = (PEER_IP, port)
             init_cfg = {'fail': False}
-            peer_got: list = []
 
             def setup(w):
                 if init_cfg['fail']:
@@ -236,6 +395,14 @@ def _run_impl(case: dict) -> dict:
                     return not req.done() and not cancel_called[0]
                 if name in ('hold', 'unhold', 'drain'):
                     return True
+                if name == 'probe':
+                    # the caller has been given a connection (and it is alive: `C11-returned-not-live` otherwise)
+                    if not (req.done() and not req.cancelled() and req.exception() is None):
+                        return False
+                    c = req.result()
+                    k = (c.hostname, c.port)
+                    return (isinstance(c, PeerConnection) and c in net.peer_connections and k in fn.lib_writers
+                            and not fn.lib_writers[k]._closed)
                 if name == 'release':
                     return arg in gate.parked_labels()
                 raise ValueError(name)
@@ -307,8 +474,11 @@ def _run_impl(case: dict) -> dict:
                     n_in[0] += 1
                     key = ('10.9.0.%d' % n_in[0], 4000 + n_in[0])
                     in_keys.append(key)
-                    rr, rw = fn.incoming(CLEAR_PORT, key)
-                    rw.write(PeerPierceFirewall.Request(TICKET).serialize())
+                    # the peer connects to one of our listening ports and writes what that port requires
+                    in_obf[key] = arg == 'obfs'
+                    rr, rw = fn.incoming(OBFS_PORT if in_obf[key] else CLEAR_PORT, key)
+                    data = PeerPierceFirewall.Request(TICKET).serialize()
+                    rw.write(obfuscation.encode(data) if in_obf[key] else data)
                 elif name == 'cannotConnect':
                     msg_held['m:CannotConnect'] = ['cannotConnect']
                     server.send(CannotConnect.Response(TICKET))
@@ -326,22 +496,39 @@ def _run_impl(case: dict) -> dict:
 
             dialed: list = []
 
+            def port_obf_of(k) -> bool:
+                """the peer's port `k` is its obfuscated one (outgoing) / the peer came in on our obfuscated port"""
+                if k in in_obf:
+                    return in_obf[k]
+                return bool(obfs) and k[1] == obfs
+
+            def is_our_init(m) -> bool:
+                return isinstance(m, PeerInit.Request) and m.ticket == TICKET and m.typ == typ and m.username == 'me'
+
+            def far_view():
+                """what the peer we dialled has made of the bytes on the direct socket(s)"""
+                views = []
+                for k in fn.rem:
+                    if k[0] == PEER_IP and k in fn.lib_writers:
+                        views.append(_far_end(bytes(fn.lib_writers[k].sent), port_obf_of(k), typ))
+                return views
+
+            async def do_probe():
+                c = req.result()
+                k = (c.hostname, c.port)
+                pobf = port_obf_of(k)
+                lw = fn.lib_writers[k]
+                known = c.incoming or is_our_init(_far_end(bytes(lw.sent), pobf, typ)['init'])
+                rx, tx = await _probe(c, typ, pobf, known, fn.rem[k][1], lw, traffic, 7000 + 2 * len(probes))
+                probes.append([rx, tx])
+
             def snapshot():
-                # what the peer received on the direct socket
-                for k, (rr, rw) in fn.rem.items():
-                    if k == dkey or (k[0] == PEER_IP):
-                        w = fn.lib_writers[k]
-                        if w.sent and bytes(w.sent) not in peer_got:
-                            peer_got.append(bytes(w.sent))
-                init_ok = 0
-                for raw in peer_got:
-                    try:
-                        data = obfuscation.decode(raw) if obf else raw
-                        m = PeerInitializationMessage.deserialize_request(data)
-                        if isinstance(m, PeerInit.Request) and m.ticket == TICKET and m.typ == typ and m.username == 'me':
-                            init_ok = 1
-                    except Exception:
-                        pass
+                # what the peer received on the direct socket: as it is in fact encoded (`init`, `enc`: compared with the
+                # model), and as the peer reads it (`far_init`: the monitor)
+                views = far_view()
+                init_ok = int(any(v['enc'] in ('c', 'o') and is_our_init(v['first']) for v in views))
+                enc = next((v['enc'] for v in views if v['enc'] != '-'), '-')
+                far_init = int(any(is_our_init(v['init']) for v in views))
                 if not req.done():
                     res = 'pending'
                     ret = None
@@ -374,14 +561,16 @@ def _run_impl(case: dict) -> dict:
                               and r.typ == typ for r in server.received))
                 held = sorted(gate.parked_labels())
                 line = (f"res={res} reg={','.join(reg)} tw={tw} rw={rw_n} aw={aw_n} open={','.join(sorted(op))} "
-                        f"ctp={ctp} init={init_ok} held={','.join(l for l in held if not l.startswith('m:'))}")
+                        f"ctp={ctp} init={init_ok} enc={enc} "
+                        f"held={','.join(l for l in held if not l.startswith('m:'))}")
                 inflight_keys = [(c.hostname, c.port) for c in inflight]
                 if extra_t:
                     line += f' EXTRA_TICKETS={extra_t}'
                 acc_exc = sorted({type(t.exception()).__name__ for t in fn.accept_tasks.values()
                                   if t.done() and not t.cancelled() and t.exception() is not None})
                 facts = {'res': res, 'reg': reg, 'tw': tw, 'rw': rw_n, 'aw': aw_n, 'open': sorted(op),
-                         'held': held,
+                         'held': held, 'far_init': far_init, 'enc': enc,
+                         'dial_port_obf': [port_obf_of(k) for k in fn.rem if k[0] == PEER_IP],
                          'inflight_reg': sum(1 for c in inflight if c in net.peer_connections),
                          'inflight_open': sum(1 for k in inflight_keys if k in fn.lib_writers and not fn.lib_writers[k]._closed),
                          'reg_states': sorted(('i' if c.incoming else 'd') + ':' + c.state.name + ':' + c.connection_state.name for c in net.peer_connections),
@@ -440,6 +629,9 @@ def _run_impl(case: dict) -> dict:
                 elif not enabled(name, arg):
                     skipped.append(op)
                     continue
+                elif name == 'probe':
+                    await do_probe()
+                    own = ['probe']
                 elif name == 'drain':
                     # every listener returns: nothing is armed any more, the parked invocations are released one by one
                     gate.armed.clear()
@@ -457,6 +649,10 @@ def _run_impl(case: dict) -> dict:
                     if k != SERVER_ADDR and k not in dialed:
                         dialed.append(k)
                 line, facts = snapshot()
+                if name == 'probe':
+                    line += ' use=%d%d' % tuple(probes[-1])
+                    facts['use'] = list(probes[-1])
+                    facts['use_port_obf'] = port_obf_of((req.result().hostname, req.result().port))
                 executed.append(op)
                 exec_idx.append(j_)
                 lines.append(line)
@@ -464,7 +660,7 @@ def _run_impl(case: dict) -> dict:
                 logs.append(gate.log[n_log:])
                 mlines.append(model_lines_of(own, gate.log[n_log:]))
             dconn = [c for c in [*net.peer_connections] if not c.incoming]
-            keep = (bus, net, srv_task, gate)  # noqa: F841
+            keep = (bus, net, srv_task, gate, traffic)  # noqa: F841
             return {'executed': executed, 'exec_idx': exec_idx, 'lines': lines, 'facts': facts_l, 'skipped': skipped,
                     'logs': logs, 'mlines': mlines,
                     'dialed': [list(k) for k in dialed], 'expected_dial': [PEER_IP, port], 'hang': hang['hit'], 'sites': sorted(audit.sites),
@@ -498,6 +694,8 @@ def _fmt_op(op: list) -> str:
         return 'connectRefused'          # the model has one op for "open_connection raises"
     if op[0] == 'connectOk':
         return f'connectOk {int(bool(op[1]))}'
+    if op[0] == 'pierce':
+        return f"pierce {int(len(op) > 1 and op[1] == 'obfs')}"
     if len(op) > 1:
         return f'{op[0]} {op[1]}'
     return op[0]
@@ -507,7 +705,9 @@ def _model_groups(case: dict, io: dict) -> list[list[str]]:
     """one group of driver lines per observed snapshot; the answer to the LAST line of a group is compared with the
     snapshot, no line of a group may be rejected"""
     groups = [list(g) for g in io['mlines']]
-    groups[0] = [f"new {case['mode']} {int(bool(case['lookup']))} {int(bool(case['srvFail']))}"] + \
+    _, dial_obf = _expected_port(bool(case['prefer']), *case['ports'])
+    groups[0] = [f"new {case['mode']} {int(bool(case['lookup']))} {int(bool(case['srvFail']))} {case['typ']} "
+                 f"{int(dial_obf)}"] + \
         [l for l in groups[0] if l != 'show']
     return groups
 
@@ -625,6 +825,7 @@ def _monitor(case: dict, impl: dict) -> list[Violation]:
     direct_ok = indirect_ok = False
     direct_dead = indirect_dead = False
     indirect_started = False
+    wire_flagged = False
     ops = [None] + impl['executed']
     logs = impl.get('logs') or [[] for _ in ops]
     for n, (op, f) in enumerate(zip(ops, impl['facts'])):
@@ -656,6 +857,29 @@ def _monitor(case: dict, impl: dict) -> list[Violation]:
         elif res.endswith('!unusable'):
             add('C11-bad-result', f'after {op}: create_peer_connection ended with {res}', impl['lines'][n],
                 'an initialised, usable connection of the requested type, or PeerConnectionError')
+        # --- the far end (docs/source/SOULSEEK.rst, "Obfuscation"): the connection the request returns is one the peer
+        #     has, and one that carries messages both ways
+        if res == 'D' and not f.get('far_init', 1) and not wire_flagged:
+            wire_flagged = True
+            pobf = (f.get('dial_port_obf') or [None])[0]
+            add('C11-peer-cannot-read-init', f'after {op} ({case["mode"]} mode, type {case["typ"]}): create_peer_connection '
+                f'returned the direct connection, but the peer — reached on its {"obfuscated" if pobf else "clear"} port, '
+                f'where the peer-init message has to be {"obfuscated" if pobf else "in clear"} — has not been sent a '
+                f'readable PeerInit(me, {case["typ"]}, ticket): what we wrote is '
+                f'{ {"c": "in clear", "o": "obfuscated", "-": "nothing", "?": "not a peer-init message in either encoding"}[f.get("enc", "?")]}',
+                impl['lines'][n], 'an initialised connection: the peer knows who connected, for what type and ticket')
+        if 'use' in f and not wire_flagged and f['use'] != [1, 1]:
+            wire_flagged = True
+            rx, tx = f['use']
+            pobf = f.get('use_port_obf')
+            add('C11-connection-unusable', f'({case["mode"]} mode, type {case["typ"]}, the '
+                f'{"pierced" if res.startswith("I") else "direct"} connection, made on a'
+                f'{"n obfuscated" if pobf else " clear"} port) the caller used the connection it was given: '
+                + '; '.join(([] if rx else ['a message the peer sent — encoded as the protocol says for this type and port — '
+                                            'was not received']) +
+                            ([] if tx else ['the message we sent cannot be read by a peer that decodes as the protocol says '
+                                            'for this type and port'])),
+                impl['lines'][n], 'a usable connection of the requested type')
         if res == 'raised' and (direct_ok or indirect_ok):
             add('C11-raised-though-path-worked', f'after {op}: PeerConnectionError although '
                 f'{"the direct" if direct_ok else "the indirect"} attempt succeeded', impl['lines'][n], 'returns the connection')
@@ -739,6 +963,85 @@ def _monitor_back(case: dict, io: dict) -> list[Violation]:
     return vs
 
 
+def _run_back_wire(case: dict) -> dict:
+    """Connect-back at wire level: the server passes on a ConnectToPeer of `bob` (type, clear / obfuscated port); the
+    library dials the port `select_port` picks; the connect succeeds / is refused / the first write fails.  Observed: what
+    the asking peer — decoding as the protocol says for the port that was dialled — has read, whether the server was told
+    CannotConnect, and (when connected) one message each way on the new connection.
+    case = {'kind': 'wireback:…', 'typ', 'prefer', 'ports': [clear, obfs], 'how': ok | refused | write-fails}"""
+    from aioslsk.protocol.messages import ConnectToPeer, CannotConnect, PeerPierceFirewall
+
+    async def main(loop):
+        fn = GatedNet().install()
+        try:
+            clear, obfs = case['ports']
+            typ, how = case['typ'], case['how']
+            bus, net, server, srv_task = await start_network(loop, fn, make_settings('fallback', obfuscate=bool(case['prefer'])))
+            traffic = _PeerTraffic(bus)
+            port, obf = _expected_port(bool(case['prefer']), clear, obfs)
+            if how == 'write-fails':
+                fn.writer_setup[(PEER_IP, port)] = lambda w: setattr(w, 'fail_after', 0)
+            server.send(ConnectToPeer.Response(USER, typ, PEER_IP, clear, TICKET, False,
+                                               obfuscated_port_amount=1 if obfs else 0, obfuscated_port=obfs))
+            await settle()
+            dial = [k for k in fn.pending if k != SERVER_ADDR and fn.connect_parked(k)]
+            if dial:
+                fn.release_connect(dial[0], 'refuse' if how == 'refused' else 'ok')
+                await settle()
+            key = dial[0] if dial else None
+            lw = fn.lib_writers.get(key) if key else None
+            pobf = bool(obfs) and key is not None and key[1] == obfs
+            view = _far_end(bytes(lw.sent) if lw is not None else b'', pobf, typ)
+            pierced = int(isinstance(view['init'], PeerPierceFirewall.Request) and view['init'].ticket == TICKET)
+            enc = view['enc'] if isinstance(view['first'], PeerPierceFirewall.Request) or view['enc'] in '-?' else '?'
+            cc = int(any(isinstance(r, CannotConnect.Request) and r.ticket == TICKET and r.username == USER
+                         for r in server.received))
+            conn = next((c for c in net.peer_connections if not c.incoming), None)
+            use = None
+            if conn is not None and lw is not None and not lw._closed:
+                use = list(await _probe(conn, typ, pobf, bool(pierced), fn.rem[key][1], lw, traffic, 7100))
+            keep = (bus, net, srv_task, traffic)  # noqa: F841
+            line = f'enc={enc}' + (' use=%d%d' % tuple(use) if use is not None else '')
+            return {'line': line, 'dialed': [list(k) for k in dial], 'expected_dial': [PEER_IP, port], 'port_obf': pobf,
+                    'pierced': pierced, 'cc': cc, 'use': use, 'enc': enc,
+                    'registered': len(net.peer_connections),
+                    'loop_exceptions': [e for e in loop.exceptions if e.get('type') not in (None, 'CancelledError')]}
+        finally:
+            fn.uninstall()
+            try:
+                bus._events.clear()
+            except Exception:
+                pass
+
+    logging.disable(logging.CRITICAL)
+    try:
+        res, _loop = simloop.run(main)
+    finally:
+        logging.disable(logging.NOTSET)
+    return res
+
+
+def _monitor_back_wire(case: dict, io: dict) -> list[Violation]:
+    vs = []
+    if io['dialed'] and io['dialed'][0] != io['expected_dial']:
+        vs.append(Violation('C11-select-port', f"connect-back dialled {io['dialed']}", case, io['dialed'],
+                            f"{io['expected_dial']} (an available port, the preferred kind when both exist)"))
+    if not io['pierced'] and not io['cc']:
+        how = {'c': 'in clear', 'o': 'obfuscated', '-': 'nothing', '?': 'not a peer-init message in either encoding'}[io['enc']]
+        vs.append(Violation('C11-connect-back-unanswered',
+                            f'the server passed on a ConnectToPeer (type {case["typ"]}); we dialled the peer\'s '
+                            f'{"obfuscated" if io["port_obf"] else "clear"} port (connect: {case["how"]}); the peer — decoding as '
+                            f'the protocol says for that port — has not read a PeerPierceFirewall with the ticket (what we wrote: '
+                            f'{how}) and the server was not sent CannotConnect', case, io['line'],
+                            'a pierce-firewall message to the peer or a cannot-connect report to the server'))
+    return vs
+
+
+def _wireback_cases() -> list[dict]:
+    return [{'kind': f'wireback:{typ}:{how}', 'typ': typ, 'prefer': prefer, 'ports': [clear, obfs], 'how': how}
+            for typ in TYPES for clear, obfs, prefer in PORT_CFGS for how in ('ok', 'refused', 'write-fails')]
+
+
 # --------------------------------------------------------------------------------------------
 # generator
 # --------------------------------------------------------------------------------------------
@@ -746,7 +1049,15 @@ def _monitor_back(case: dict, io: dict) -> list[Violation]:
 DIRECT = {'ok': [['connectOk', 1]], 'refused': [['connectRefused']], 'timeout': [['connectTimeout']],
           'init-fails': [['connectOk', 0]], 'overflow': [['connectOverflow']], 'none': []}
 INDIRECT = {'pierce': [['pierce']], 'cannot-connect': [['cannotConnect']], 'timeout': [['indirectTimeout']], 'none': []}
-LATE = [['pierce'], ['cannotConnect'], ['pierce'], ['connectOk', 1], ['indirectTimeout'], ['cancelRequest']]
+LATE = [['probe'], ['pierce'], ['cannotConnect'], ['pierce', 'obfs'], ['connectOk', 1], ['indirectTimeout'], ['cancelRequest'],
+        ['probe']]
+TYPES = 'PDF'
+PORT_CFGS = [(2234, 0, 0), (0, 2235, 0), (2234, 2235, 0), (2234, 2235, 1), (2234, 0, 1), (0, 2235, 1)]
+
+
+def _with_pierce_port(ops: list, obfs: bool) -> list:
+    """the same schedule with the peer piercing on our obfuscated listening port"""
+    return [['pierce', 'obfs'] if (obfs and o[0] == 'pierce' and len(o) == 1) else list(o) for o in ops]
 
 
 def _interleavings(a: list, b: list) -> list[list]:
@@ -759,7 +1070,7 @@ def _interleavings(a: list, b: list) -> list[list]:
 
 def _grid() -> list[dict]:
     cases = []
-    port_cfgs = [(2234, 0, 0), (0, 2235, 0), (2234, 2235, 0), (2234, 2235, 1), (2234, 0, 1), (0, 2235, 1)]
+    port_cfgs = PORT_CFGS
     k = 0
     for mode in ('fallback', 'race'):
         for lookup in (0, 1):
@@ -777,13 +1088,41 @@ def _grid() -> list[dict]:
                                     ops = list(order)
                                     if cancel_at is not None:
                                         ops = ops[:cancel_at] + [['cancelRequest']] + ops[cancel_at:]
-                                    clear, obfs, prefer = port_cfgs[k % len(port_cfgs)]
+                                    # connection type x port situation x the listening port the peer pierces on rotate
+                                    # through all 36 combinations (k mod 36), independently of one another
+                                    clear, obfs, prefer = port_cfgs[k % 6]
+                                    typ = TYPES[(k // 6) % 3]
+                                    ops = _with_pierce_port(ops, (k // 18) % 2 == 1)
                                     k += 1
                                     cases.append({'kind': f'{mode}:{"lookup" if lookup else "given"}:'
                                                           f'{"srvfail:" if srv_fail else ""}d={dname}:i={iname}',
                                                   'mode': mode, 'lookup': lookup, 'srvFail': srv_fail,
-                                                  'typ': 'PF'[k % 2], 'prefer': prefer, 'ports': [clear, obfs],
+                                                  'typ': typ, 'prefer': prefer, 'ports': [clear, obfs],
                                                   'ops': ops + LATE})
+    return cases
+
+
+def _wire_grid() -> list[dict]:
+    """The full product mode x connection type P / D / F x the six port situations (which decide whether the dialled port
+    is the peer's obfuscated one) x address given / looked up x who succeeds — the direct attempt; the peer piercing on
+    our clear / on our obfuscated listening port (fallback: after the direct attempt was refused; race: while it is still
+    dialling, and after the direct attempt has won) — each followed by the caller using the connection (`probe`), twice."""
+    cases = []
+    for mode in ('fallback', 'race'):
+        for typ in TYPES:
+            for clear, obfs, prefer in PORT_CFGS:
+                for lookup in (0, 1):
+                    head = [['addrReply', 'valid']] if lookup else []
+                    lose = [['connectRefused']] if mode == 'fallback' else []
+                    scen = {'direct': [['connectOk', 1]],
+                            'pierce-clear': lose + [['pierce']],
+                            'pierce-obfs': lose + [['pierce', 'obfs']],
+                            'direct-then-pierce-obfs': [['connectOk', 1], ['pierce', 'obfs']],
+                            'pierce-obfs-then-direct': lose + [['pierce', 'obfs'], ['connectOk', 1]]}
+                    for name, ops in scen.items():
+                        cases.append({'kind': f'wire:{mode}:{typ}:{name}', 'mode': mode, 'lookup': lookup, 'srvFail': 0,
+                                      'typ': typ, 'prefer': prefer, 'ports': [clear, obfs],
+                                      'ops': head + [list(o) for o in ops] + [['probe'], ['probe'], ['cannotConnect'], ['probe']]})
     return cases
 
 
@@ -842,7 +1181,8 @@ HOLD_SETS = ([[l] for l in D_LABELS + A_LABELS + M_LABELS]
                 ['d:CONNECTING', 'd:CLOSING'], ['a:CLOSING', 'a:CLOSED'], ['d:CONNECTED', 'd:INIT']])
 ENV_OPS = [['connectOk', 1], ['connectOk', 0], ['connectRefused'], ['connectTimeout'], ['pierce'], ['cannotConnect'],
            ['indirectTimeout'], ['cancelRequest']]
-LATE_HELD = [['drain'], ['pierce'], ['cannotConnect'], ['connectOk', 1], ['indirectTimeout'], ['cancelRequest'], ['drain']]
+LATE_HELD = [['drain'], ['probe'], ['pierce'], ['cannotConnect'], ['connectOk', 1], ['indirectTimeout'], ['cancelRequest'],
+             ['drain'], ['probe']]
 
 
 def _held_grid(depth: int, stride: int = 1, offset: int = 0) -> list[dict]:
@@ -869,7 +1209,9 @@ def _held_grid(depth: int, stride: int = 1, offset: int = 0) -> list[dict]:
                         k += 1
                         if (k + offset) % stride:
                             continue
-                        ops = [list(alphabet[x]) for x in seq]
+                        # (type k mod 3, dialled port obfuscated k mod 2, pierced port obfuscated (k div 2) mod 2: all
+                        # twelve combinations)
+                        ops = _with_pierce_port([list(alphabet[x]) for x in seq], (k // 2) % 2 == 1)
                         cases.append({'kind': f'held:{mode}:{"+".join(hs)}', 'mode': mode, 'lookup': lookup, 'srvFail': 0,
                                       'typ': 'PFD'[k % 3], 'prefer': k % 2, 'ports': [2234, 2235] if k % 2 else [2234, 0],
                                       'hold': list(hs), 'ops': [list(o) for o in pre] + ops + [list(o) for o in LATE_HELD]})
@@ -883,14 +1225,15 @@ def _gen_random_held(rng: random.Random) -> dict:
     labels = D_LABELS + A_LABELS + W_LABELS + M_LABELS
     hs = rng.sample(labels, rng.choice([1, 1, 2, 2, 3, 4, 6]))
     pool = ([['addrReply', 'valid']] * 3 + [['addrReply', 'noAddr'], ['addrReply', 'noPort']] + [['connectOk', 1]] * 4
-            + [['connectOk', 0], ['connectRefused'], ['connectTimeout']] * 2 + [['connectOverflow']] + [['pierce']] * 4
+            + [['connectOk', 0], ['connectRefused'], ['connectTimeout']] * 2 + [['connectOverflow']] + [['pierce']] * 2
+            + [['pierce', 'obfs']] * 2 + [['probe']] * 2
             + [['cannotConnect']] * 2 + [['indirectTimeout']] * 2 + [['cancelRequest']] * 3 + [['release', l] for l in hs] * 3
             + [['hold', rng.choice(labels)], ['unhold', rng.choice(hs)], ['drain']])
     ops = [list(rng.choice(pool)) for _ in range(rng.randint(3, 12))]
     if lookup and rng.random() < 0.7:
         ops.insert(0, ['addrReply', 'valid'])
     return {'kind': 'held:random', 'mode': mode, 'lookup': int(lookup), 'srvFail': 0, 'typ': rng.choice('PFD'),
-            'prefer': int(rng.random() < 0.5), 'ports': [clear, obfs], 'hold': hs, 'ops': ops + [['drain']]}
+            'prefer': int(rng.random() < 0.5), 'ports': [clear, obfs], 'hold': hs, 'ops': ops + [['drain'], ['probe']]}
 
 
 def _coincidence_held() -> list[dict]:
@@ -927,11 +1270,12 @@ def _gen_random(rng: random.Random) -> dict:
     srv_fail = rng.random() < 0.15 and not (mode == 'race' and lookup)
     clear, obfs = rng.choice([(2234, 0), (0, 2235), (2234, 2235)])
     pool = ([['addrReply', 'valid']] * 4 + [['addrReply', 'noAddr'], ['addrReply', 'noPort']] + [['connectOk', 1]] * 4
-            + [['connectOk', 0], ['connectRefused'], ['connectTimeout']] * 2 + [['connectOverflow']] + [['pierce']] * 4
+            + [['connectOk', 0], ['connectRefused'], ['connectTimeout']] * 2 + [['connectOverflow']] + [['pierce']] * 2
+            + [['pierce', 'obfs']] * 2 + [['probe']] * 2
             + [['cannotConnect']] * 3 + [['indirectTimeout']] * 2 + [['cancelRequest']] * 2)
     ops = [list(rng.choice(pool)) for _ in range(rng.randint(3, 12))]
     return {'kind': 'random', 'mode': mode, 'lookup': int(lookup), 'srvFail': int(srv_fail), 'typ': rng.choice('PFD'),
-            'prefer': int(rng.random() < 0.5), 'ports': [clear, obfs], 'ops': ops}
+            'prefer': int(rng.random() < 0.5), 'ports': [clear, obfs], 'ops': ops + [['probe']]}
 
 
 # Suspension points that exist only because an application listener suspends: the innermost frame of the anchored code
@@ -946,7 +1290,9 @@ LISTENER_SITES = frozenset([
 # (fixes/C16-closing-cancellation-arrives-before-closed.patch, if committed).  For this model that is the same position as
 # `disconnect>wait_closed`: inside `disconnect()`, after the CLOSING listeners, before CLOSED — a cancellation there runs the
 # `finally` to CLOSED (cancelDirect on fClosing / cClosing).  Exercised by the coincidence family (0 violations).
-EXTRA_SITES = frozenset(['connection.py:disconnect>sleep'])
+EXTRA_SITES = frozenset(['connection.py:disconnect>sleep',
+                         # `probe` on an F connection: the harness, as the transfer code does, reads the transfer ticket itself
+                         'connection.py:_read>readexactly', 'connection.py:receive_transfer_ticket>start'])
 
 
 def site_breaks(cases: list, impl: list) -> list:
@@ -975,6 +1321,8 @@ def _eval_case(case):
     try:
         if 'c10case' in case:
             return _c10._run_impl(case['c10case'])
+        if case.get('kind', '').startswith('wireback'):
+            return _run_back_wire(case)
         return _run_impl(case)
     except AssertionError:
         raise
@@ -1002,6 +1350,19 @@ WITNESSES = [
      'prefer': 0, 'ports': [2234, 0], 'ops': [['connectRefused']]},
     {'kind': 'witness:race-request-cancelled', 'mode': 'race', 'lookup': 0, 'srvFail': 0, 'typ': 'P', 'prefer': 0,
      'ports': [2234, 0], 'ops': [['cancelRequest'], ['pierce']]},
+]
+
+
+WIRE_WITNESSES = [
+    # the class of seeded/C11-k: a file / distributed connection to a peer reached on its obfuscated port
+    {'kind': 'witness:wire:file-to-obfuscated-only-port', 'mode': 'fallback', 'lookup': 1, 'srvFail': 0, 'typ': 'F',
+     'prefer': 0, 'ports': [0, 2235], 'ops': [['addrReply', 'valid'], ['connectOk', 1], ['probe']]},
+    {'kind': 'witness:wire:distributed-prefer-obfuscated-race', 'mode': 'race', 'lookup': 0, 'srvFail': 0, 'typ': 'D',
+     'prefer': 1, 'ports': [2234, 2235], 'ops': [['connectOk', 1], ['probe']]},
+    {'kind': 'witness:wire:peer-on-obfuscated-port-stays-obfuscated', 'mode': 'fallback', 'lookup': 0, 'srvFail': 0, 'typ': 'P',
+     'prefer': 1, 'ports': [2234, 2235], 'ops': [['connectOk', 1], ['probe'], ['probe']]},
+    {'kind': 'witness:wire:file-pierced-on-obfuscated-listening-port', 'mode': 'fallback', 'lookup': 0, 'srvFail': 0, 'typ': 'F',
+     'prefer': 0, 'ports': [2234, 0], 'ops': [['connectRefused'], ['pierce', 'obfs'], ['probe']]},
 ]
 
 
@@ -1047,8 +1408,16 @@ class C11(Property):
             'open_connection raises a non-OSError, never completes} x indirect {peer pierces, CannotConnect, 60 s timeout, '
             'nothing} x every relative order of the two outcomes x cancellation of the request at every position (or not at '
             'all), each followed by late events (pierce, CannotConnect, connect completion, timer, cancel) after the request '
-            'finished; clear/obfuscated port availability x preference rotated over the grid and compared exhaustively for '
-            'select_port; random op sequences from VERIF_SEED; SUSPENDED LISTENERS: for 25 sets of notifications whose '
+            'finished; connection type P / D / F x clear/obfuscated port availability x preference x the listening port '
+            '(clear / obfuscated) the peer pierces on rotated independently over the grid (all 36 combinations), select_port '
+            'compared exhaustively; THE FAR END: every byte the library writes on a connection of the request is decoded as a '
+            'peer that follows the protocol decodes it for the port really dialled / pierced on; `probe` (the caller uses the '
+            'returned connection: one message each way, P PeerUserInfoRequest / D DistributedBranchLevel / F transfer ticket) '
+            'after the request finished and again after the late events; the full product mode x type x 6 port situations x '
+            'address given / looked up x {direct wins, pierce on the clear port, pierce on the obfuscated port, direct then '
+            'late pierce, pierce then late connect} (360 cases) + probes; connect-back at wire level: ConnectToPeer from the '
+            'server for type x 6 port situations x {connect ok, refused, first write fails} (54 cases); '
+            'random op sequences from VERIF_SEED; SUSPENDED LISTENERS: for 25 sets of notifications whose '
             'listeners suspend (each single one of CONNECTING / CONNECTED / PeerInitializedEvent / CLOSING / CLOSED of the '
             'outgoing connection, CONNECTED / PeerInitializedEvent / CLOSING / CLOSED of a connection being accepted, the '
             'CannotConnect / GetPeerAddress message events, and 14 pairs incl. the winner being closed) x both modes: every '
@@ -1070,14 +1439,22 @@ class C11(Property):
         'after it (the harness does not send them meanwhile); in the model such a message takes effect when its '
         'listeners return',
         'a cancelled request is cancelled once',
+        'the far end follows docs/source/SOULSEEK.rst ("Obfuscation"): peer-init messages are obfuscated exactly on '
+        'obfuscated ports; afterwards only P connections stay obfuscated, D and F connections go on in clear; a peer that '
+        'cannot read the peer-init message has no connection with us (it neither sends nor reads anything)',
+        'the caller passes obfuscate=True exactly when the port it gives is the peer\'s obfuscated port',
     ]
     modelled = ('create_peer_connection, _create_peer_connection_fallback/_race (incl. gather of the loser, closing the '
                 'winner when cancelled meanwhile), _get_peer_address, select_port, _make_direct_connection, '
                 '_make_indirect_connection, ListeningConnection.accept + the PeerPierceFirewall arm of on_peer_accepted, '
                 'completion of the CannotConnect waiter, and every listener notification on these paths (CONNECTING / '
                 'CONNECTED / PeerInitializedEvent / CLOSING / CLOSED) as a suspension point of its own, with '
-                'DataConnection.disconnect running to CLOSED when cancelled inside one; connect-back '
-                '(_handle_connect_to_peer) through Model/Conn.lean. Exercised only: codec, obfuscation, '
+                'DataConnection.disconnect running to CLOSED when cancelled inside one; the wire-level state of each '
+                'connection object of the request (PeerConnection.obfuscated, connection_state, reader task) as '
+                '_make_direct_connection / ListeningConnection.accept / on_peer_accepted / _finalize_peer_connection / '
+                'set_connection_state set it, the encoding PeerInit goes out in, and the outcome of one message each way on '
+                'the returned connection; connect-back (_handle_connect_to_peer) through Model/Conn.lean, its wire level '
+                '(PeerPierceFirewall, then finalise) through connectBackWire. Exercised only: codec, obfuscation, '
                 'asyncio.wait/gather/Task.cancel, connection internals (C10), a suspended PeerInit drain (K_C10 direct '
                 'scenarios), two pierces in flight at once (monitor only)')
 
@@ -1086,7 +1463,7 @@ class C11(Property):
         rng = random.Random(f'C11-{seed}')
         quick = tier == 'quick'
         n = (6000 if quick else 120000) * widen
-        cases = list(WITNESSES) + _grid() + [_gen_random(rng) for _ in range(n)]
+        cases = list(WITNESSES) + list(WIRE_WITNESSES) + _grid() + _wire_grid() + [_gen_random(rng) for _ in range(n)]
         # suspended listeners: depth-2 sequences in full, depth 3 sampled (quick: a VERIF_SEED-dependent 1/12th) / in full
         cases += list(HELD_WITNESSES) + _held_grid(2)
         cases += _held_grid(3, stride=max(1, 12 // widen), offset=rng.randrange(12)) if quick else _held_grid(3)
@@ -1098,12 +1475,15 @@ class C11(Property):
         back = [{'kind': c['kind'], 'c10case': c} for c in _c10._grid()
                 if c['kind'].startswith('back') or (c['kind'].startswith('direct') and any(
                     o[0] == 'at' and o[2] == 'cancelAttempt' for o in c['ops']))]
-        impl = common.parallel_map(_eval_case, cases + back)
-        for c, io in zip(cases + back, impl):
+        wback = _wireback_cases()
+        impl = common.parallel_map(_eval_case, cases + back + wback)
+        for c, io in zip(cases + back + wback, impl):
             if io.get('harness_error'):
                 raise RuntimeError(f'C11 harness error: {io["harness_error"]}\n{io.get("tb")}\ncase={c}')
         model = None
         sel_lines = [f'selectPort {p} {a} {b}' for p in (0, 1) for a in (0, 2234) for b in (0, 2235) if a or b]
+        wb_model = [c for c in wback if c['how'] == 'ok']
+        wb_lines = [f"back {c['typ']} {int(_expected_port(bool(c['prefer']), *c['ports'])[1])}" for c in wb_model]
         if model_ok:
             lines, spans = [], []
             for c, io in zip(cases[:n_model], impl):
@@ -1111,7 +1491,7 @@ class C11(Property):
                 spans.append((len(lines), [len(g) for g in groups]))
                 for g in groups:
                     lines += g
-            out = common.run_driver(self.driver_file, lines + sel_lines)
+            out = common.run_driver(self.driver_file, lines + sel_lines + wb_lines)
             model = []
             for a, sizes in spans:
                 per, pos = [], a
@@ -1121,7 +1501,14 @@ class C11(Property):
                     bad = next((x for x in grp if x in ('rejected', 'bad-op')), None)
                     per.append(bad if bad is not None else grp[-1])
                 model.append(per)
-            sel_out = out[len(lines):]
+            sel_out = out[len(lines):len(lines) + len(sel_lines)]
+            wb_out = out[len(lines) + len(sel_lines):]
+            by_case = {id(c): io for c, io in zip(wback, impl[len(cases) + len(back):])}
+            for c, l, o in zip(wb_model, wb_lines, wb_out):
+                res.evaluations += 1
+                res.traces_validated += 1
+                if by_case[id(c)]['line'] != o:
+                    res.disagreements.append(Disagreement(c, by_case[id(c)]['line'], o, f'connect-back at wire level ({l})'))
             for l, o in zip(sel_lines, sel_out):
                 _, p, a, b = l.split()
                 ep, eo = _expected_port(bool(int(p)), int(a), int(b))
@@ -1130,7 +1517,7 @@ class C11(Property):
                     res.disagreements.append(Disagreement({'selectPort': l}, f'{ep} {int(eo)}', o, 'select_port table'))
         else:
             res.model_available = False
-        res.disagreements += site_breaks(cases + back, impl)
+        res.disagreements += site_breaks(cases + back, impl[:len(cases) + len(back)])
         res.count('await-sites-seen', len({x for io in impl for x in io.get('sites', [])}))
         for i, c in enumerate(cases):
             io = impl[i]
@@ -1156,6 +1543,14 @@ class C11(Property):
             finals = [f['res'] for f in io['facts']]
             res.count('result:' + finals[-1])
             res.count(f"ports:clear={int(bool(c['ports'][0]))},obfs={int(bool(c['ports'][1]))},prefer={c['prefer']}")
+            for f_ in io['facts']:
+                if 'use' in f_:
+                    res.count(f"probe:{c['typ']}:{'pierced' if f_['res'].startswith('I') else 'direct'}:"
+                              f"{'obfuscated' if f_.get('use_port_obf') else 'clear'}-port:rx{f_['use'][0]}tx{f_['use'][1]}")
+            fin_ = io['facts'][-1]
+            if fin_['res'] == 'D':
+                res.count(f"returned-direct:{c['typ']}:{'obfuscated' if (fin_.get('dial_port_obf') or [0])[0] else 'clear'}-port:"
+                          f"init-enc={fin_.get('enc')}")
             done_at = next((j for j, r in enumerate(finals) if r != 'pending'), None)
             if (done_at is not None and len(finals) > done_at + 1) or 'ctp=1' in io['lines'][-1]:
                 res.nontrivial_keys.add(common.sha([c['mode'], c['lookup'], c['srvFail'], sorted(c.get('hold', [])),
@@ -1179,6 +1574,16 @@ class C11(Property):
             res.evaluations += 1
             res.count('kind:connect-back' if c['kind'].startswith('back') else 'kind:direct-attempt-cancelled')
             res.violations += _monitor_back(c, io)
+        for j, c in enumerate(wback):
+            io = impl[len(cases) + len(back) + j]
+            res.evaluations += 1
+            res.count('kind:connect-back-wire')
+            res.count(f"connect-back-wire:{c['typ']}:{'obfuscated' if io['port_obf'] else 'clear'}-port:{c['how']}")
+            res.nontrivial_keys.add(common.sha(c))
+            res.violations += _monitor_back_wire(c, io)
+            for e in io.get('loop_exceptions', []):
+                res.violations.append(Violation('C11-internal-error', 'exception reported to the loop exception handler '
+                                                '(connect-back)', c, e))
         return res
 
     def replay(self, case):
@@ -1187,6 +1592,8 @@ class C11(Property):
             raise RuntimeError(io['harness_error'] + '\n' + io.get('tb', ''))
         if 'c10case' in case:
             return _monitor_back({'kind': case['c10case'].get('kind', '')}, io)
+        if case.get('kind', '').startswith('wireback'):
+            return _monitor_back_wire(case, io)
         return _monitor(case, io)
 
     def known_witnesses(self):
